@@ -390,8 +390,10 @@ impl Sys for C11 {
         Ok(())
     }
 
-    fn canon(&self, s: &Impl, _m: &Model) -> Vec<u8> {
-        format!("{:?}|{:?}", sorted_vars(&s.variables), abstract_state(&s.state)).into_bytes()
+    fn canon(&self, s: &Impl, m: &Model) -> Vec<u8> {
+        // the model is part of the key: where the look into the saved maps is skipped (see `compare`) an
+        // implementation that has lost them must not be merged with the state that never had any
+        format!("{:?}|{:?}|{:?}|{:?}", sorted_vars(&s.variables), abstract_state(&s.state), m.vars, m.stack).into_bytes()
     }
 }
 
